@@ -284,31 +284,15 @@ theorem escape_den (tabs : Bool) (s : LexSt) (sz : Nat) (t : Char) (k : Nat)
   · split
     · rename_i _ hx
       have htx : t = 'x' := by simpa using hx
-      split
-      · exact bx htx
-      · rename_i pk hpk
-        split
-        · exact bx htx
-        · rename_i d0 tl
-          split
-          · exact bx htx
-          · simp only
-            have hlen1 : sz + 1 ≤ s.rest.length := by
-              unfold rawPeek at hpk
-              split at hpk
-              · omega
-              · cases hpk
-            have hpk' : (d0 :: tl) = (s.rest.drop (sz + 1)).take 2 := by
-              unfold rawPeek at hpk
-              split at hpk
-              · simpa using hpk.symm
-              · cases hpk
-            have hpre : (d0 :: tl).takeWhile isHexDigit <+: s.rest.drop (sz + 1) := by
-              rw [hpk']
-              exact (List.takeWhile_prefix _).trans (List.take_prefix _ _)
-            rw [take_add_prefix hpre]
-            have := Den.append (bx htx) (Den.plain tabs _ ((d0 :: tl).takeWhile isHexDigit))
-            simpa using this
+      simp only [takeWhileFrom]
+      by_cases hds : ((s.rest.drop (sz + 1)).takeWhile isHexDigit).isEmpty = true
+      · simp only [hds, ↓reduceIte]
+        exact bx htx
+      · simp only [hds, Bool.false_eq_true, ↓reduceIte]
+        have hpre : (s.rest.drop (sz + 1)).takeWhile isHexDigit <+: s.rest.drop (sz + 1) := List.takeWhile_prefix _
+        rw [take_add_prefix hpre]
+        have := Den.append (bx htx) (Den.plain tabs _ ((s.rest.drop (sz + 1)).takeWhile isHexDigit))
+        simpa using this
     · split
       · simp only [takeWhileFrom]
         have hpre : (s.rest.drop sz).takeWhile isOctal <+: s.rest.drop sz := List.takeWhile_prefix _
